@@ -194,7 +194,7 @@ def probeText (n : Names) (baseCg : Val) (m : M) (hbObj : Option Val := none) : 
   let hb : String := match hbObj with
     | some t => if m.hbOff.contains t then "0" else "1"
     | none => "0"
-  s!"caught *probe-err ; probe tp={n.nameOf baseCg} po=0 d=0 l=0 a=3,4 e=*probe-err  co=42 side in={inp} hb={hb}"
+  s!"caught *probe-err ; probe lit=2 lc=3 ve=5 tp={n.nameOf baseCg} po=0 d=0 l=0 a=3,4 e=*probe-err  co=42 side in={inp} hb={hb}"
 
 def joinSemi (xs : List String) : String := " ; ".intercalate xs
 
